@@ -12,9 +12,9 @@ use crate::refmodel::{p, Hid, Model, Param};
 use serde_json::{json, Map, Value};
 use std::sync::mpsc;
 
-pub const NCALLS: usize = 23;
+pub const NCALLS: usize = 26;
 /// calls explored to the deeper bound
-pub const CORE: [usize; 10] = [0, 1, 2, 4, 5, 7, 8, 11, 14, 17];
+pub const CORE: [usize; 11] = [0, 1, 2, 4, 5, 7, 8, 11, 14, 17, 23];
 
 struct Keys {
     a_hid: Hid,
@@ -62,6 +62,9 @@ pub fn call_name(i: usize) -> &'static str {
         "keygen A through Seed::from([u8; 32]) with non-zero bytes beyond the hash length",
         "sign A@5 m0 with a key-update callback that panics (caught by the caller)",
         "sign A@5 m0 with a key-update callback that itself signs with key B (nested call)",
+        "sign A@5 m0 (bytes API, stale aux: cached nodes altered, level word and MAC of the intact buffer)",
+        "keygen A with that stale aux buffer",
+        "sign B@3 m0 (bytes API, valid aux)",
     ][i]
 }
 
@@ -176,6 +179,25 @@ pub fn exec_call(seed: u64, i: usize) -> Vec<u8> {
             out.extend_from_slice(b"|NESTED:");
             out.extend_from_slice(&inner.borrow());
             out
+        }
+        // a buffer that differs from the valid one of call 7 only in its cached nodes: a fresh process
+        // rejects its MAC and recomputes; nothing an earlier call authenticated may change that
+        23 | 24 => {
+            let mut aux = ma.aux_build(&k.a_params, &k.a_seed, 200);
+            let l = aux.len();
+            for b in aux[4..l - k.a_hid.n()].iter_mut() {
+                *b ^= 0x5a;
+            }
+            if i == 23 {
+                enc_sign(&lib_api::sign(k.a_hid, &key_a, &m0, Cb::Accept, Some(&mut aux), Entry::Bytes))
+            } else {
+                let r = lib_api::keygen(k.a_hid, &k.a_params, &k.a_seed, Some(&mut aux));
+                enc_kg(r, None)
+            }
+        }
+        25 => {
+            let mut aux = mb.aux_build(&k.b_params, &k.b_seed, 300);
+            enc_sign(&lib_api::sign(k.b_hid, &key_b, &m0, Cb::Accept, Some(&mut aux), Entry::Bytes))
         }
         20 => {
             let mut s33 = vec![0xfeu8];
@@ -294,6 +316,17 @@ fn entry_point_agreement(pr: &[Vec<u8>]) -> Vec<Viol> {
         expect.extend_from_slice(&pr[4]);
         if pr[22] != expect {
             v.push(Viol::new("C09:nested-call-differs", "a sign call made from inside the key-update callback of another sign call changes one of the two results"));
+        }
+    }
+    if pr.len() > 25 {
+        if pr[23] != pr[2] {
+            v.push(Viol::new("C09:entry-points-disagree:stale-aux", "signing with an aux buffer whose cached nodes were altered yields a different signature/successor than without aux data"));
+        }
+        if pr[24] != pr[0] {
+            v.push(Viol::new("C09:entry-points-disagree:keygen-stale-aux", "key generation with an aux buffer whose cached nodes were altered yields a different key pair"));
+        }
+        if pr[25] != pr[4] {
+            v.push(Viol::new("C09:entry-points-disagree:aux-B", "signing key B with a valid aux buffer yields a different signature/successor than without"));
         }
     }
     if pr.len() > 20 && pr[20] != pr[0] {
@@ -535,9 +568,9 @@ pub fn run_c09(ctx: &Ctx) -> (&'static str, Map<String, Value>) {
     }
     // schedules: all interleavings of two threads x three calls, over a set of call assignments
     let triples: Vec<Vec<usize>> = if ctx.tier.thorough() {
-        vec![vec![0, 2, 3], vec![4, 1, 8], vec![5, 10, 7], vec![11, 12, 2], vec![13, 5, 9], vec![6, 4, 1], vec![2, 2, 2], vec![3, 5, 11], vec![7, 13, 0], vec![9, 8, 10], vec![14, 2, 15], vec![2, 14, 2], vec![15, 0, 14]]
+        vec![vec![0, 2, 3], vec![4, 1, 8], vec![5, 10, 7], vec![11, 12, 2], vec![13, 5, 9], vec![6, 4, 1], vec![2, 2, 2], vec![3, 5, 11], vec![7, 13, 0], vec![9, 8, 10], vec![14, 2, 15], vec![2, 14, 2], vec![15, 0, 14], vec![7, 23, 24], vec![25, 23, 7]]
     } else {
-        vec![vec![0, 2, 3], vec![4, 1, 8], vec![5, 10, 7], vec![11, 12, 2], vec![13, 5, 9], vec![6, 4, 1], vec![14, 2, 15], vec![2, 14, 2]]
+        vec![vec![0, 2, 3], vec![4, 1, 8], vec![5, 10, 7], vec![11, 12, 2], vec![13, 5, 9], vec![6, 4, 1], vec![14, 2, 15], vec![2, 14, 2], vec![7, 23, 24]]
     };
     let ils = interleavings(3, 3);
     let mut schedules = 0u64;
@@ -553,7 +586,7 @@ pub fn run_c09(ctx: &Ctx) -> (&'static str, Map<String, Value>) {
     }
     // a switch point INSIDE the key-update callback: every signing call paused there x every call on the other thread
     let mut paused_schedules = 0u64;
-    for x in [2usize, 4, 5, 7, 11, 14, 16, 17, 19] {
+    for x in [2usize, 4, 5, 7, 11, 14, 16, 17, 19, 23, 25] {
         for z in 0..NCALLS {
             if z == 22 {
                 continue;
@@ -608,7 +641,7 @@ pub fn run_c09(ctx: &Ctx) -> (&'static str, Map<String, Value>) {
     m.insert("free_running_calls_SAMPLING".into(), json!(free_calls));
     m.insert("structural_side_condition_holds".into(), json!(clean));
     m.insert("alphabet".into(), json!((0..NCALLS).map(call_name).collect::<Vec<_>>()));
-    m.insert("rule".into(), json!(format!("every sequence of calls over the full 23-call alphabet up to depth {} and over the 10-call core alphabet one call deeper (two deeper in the thorough tier) (state = the history, no merging), each executed call compared with the pristine result of the same call from a fresh process; all 20 interleavings of two OS threads x three calls for {} call assignments under a baton scheduler", depth - 1, triples.len() * triples.len())));
+    m.insert("rule".into(), json!(format!("every sequence of calls over the full 26-call alphabet up to depth {} and over the 11-call core alphabet one call deeper (two deeper in the thorough tier) (state = the history, no merging), each executed call compared with the pristine result of the same call from a fresh process; all 20 interleavings of two OS threads x three calls for {} call assignments under a baton scheduler", depth - 1, triples.len() * triples.len())));
     m.insert("exhaustive".into(), json!(true));
     ("model_checking", m)
 }
